@@ -760,6 +760,35 @@ def build_infinite(ctx, rng, i):
         th2d = np.transpose(th2.to_ndarray(), [th2.get_leg_index(l) for l in ['vL'] + ['p%d' % k for k in range(n)] + ['vR']])
         if not (np.linalg.norm(th2d - base) <= 1e-8):
             ctx.violation('get_theta:depends-on-form', 'forms %r window (%d,%d): |diff| %g' % (f, i0, n, np.linalg.norm(th2d - base)), dict(case, forms=f))
+        # canonicalising again from site-dependent forms (the gauge of the bonds may change, the state may not):
+        # the reduced density matrix of the window is gauge invariant
+        def window_rho_(t):
+            M = t.reshape(t.shape[0], -1, t.shape[-1])
+            return np.einsum('apb,aqb->pq', M, M.conj())
+
+        rho_before = window_rho_(base)
+        which2 = int(rng.integers(1, 3))
+        try:
+            if which2 == 1:
+                psi.canonical_form_infinite1()
+            else:
+                psi.canonical_form_infinite2()
+        except RuntimeError as e:
+            if 'did not converge' in str(e):
+                ctx.count('canonical_form_infinite%d.did_not_converge' % which2)
+                raise _Skip()
+            raise
+        ctx.count('infinite.recanonicalised_from_mixed_forms')
+        psi.test_sanity()
+        rho_after = window_rho_(window_theta(psi, i0, n))
+        nt2 = psi.norm_test()
+        if not (np.max(np.abs(nt2)) <= 1e-6):
+            ctx.violation('canonical_form_infinite%d:from-mixed-forms:norm_test-nonzero' % which2, 'forms %r: %r' % (f, np.max(np.abs(nt2))), dict(case, forms=f))
+        elif not (np.linalg.norm(rho_after - rho_before) <= 1e-6):
+            ctx.violation('canonical_form_infinite%d:from-mixed-forms:state-differs' % which2, 'forms %r window (%d,%d): |rho - rho_before| = %g' %
+                          (f, i0, n, np.linalg.norm(rho_after - rho_before)), dict(case, forms=f))
+    except _Skip:
+        raise
     except Exception as e:
         ctx.violation('infinite.history:raises-%s' % type(e).__name__, traceback.format_exc()[-500:], case)
     ctx.sig(('infinite', kind, L, chi, which), nontrivial=True)
